@@ -832,7 +832,7 @@ Definition http_request (n : node) (body : str) : node * option (list str) :=
 
 (* ---- in-memory effect of snapshot_all_pendding_dbs (disk_ops.rs) ------------- *)
 (* storage_data_disk marks every key it writes as Ok (fresh op id each); tombstones
-   stay tombstones.  File contents are the Disk model's business (Model/Disk.v). *)
+   stay tombstones unless the snapshot reclaims space.  File contents are the Disk model's business (Model/Disk.v). *)
 Fixpoint dedup_snap (l : list (str * bool)) : list (str * bool) :=
   match l with
   | a :: ((b :: _) as r) =>
@@ -845,7 +845,8 @@ Definition snapshot_mem_value (reclaim : bool) (acc : list (str * value) * N) (k
   let '(out, clk) := acc in
   let '(k, v) := kv in
   match v_st v with
-  | VDeleted => (out ++ [(k, v)], clk)
+  | VDeleted => if reclaim then (out, clk)      (* the rewritten files no longer hold the key: tombstone dropped *)
+                else (out ++ [(k, v)], clk)
   | VOk => if reclaim then (out ++ [(k, mkV (v_val v) (v_ver v) clk VOk (v_vaddr v) (v_kaddr v))], clk + 1)%N
            else (out ++ [(k, v)], clk)
   | _ => (out ++ [(k, mkV (v_val v) (v_ver v) clk VOk (v_vaddr v) (v_kaddr v))], clk + 1)%N
